@@ -37,10 +37,10 @@ type Step struct {
 	AckVal  uint32 `json:"ackval"`
 	// StaleAck: the segment does not carry the ACK flag but its acknowledgement field holds
 	// AckVal anyway (the field is meaningless without the flag, RFC 793 3.1, and must be ignored)
-	StaleAck bool `json:"staleack,omitempty"`
-	Len     int    `json:"len"`
-	Opts    []byte `json:"opts"`  // raw SYN options (nil = MSS 1460)
-	TSFix   bool   `json:"tsfix"` // on non-SYN segments: carry a timestamp option if the SYN-ACK negotiated it
+	StaleAck bool   `json:"staleack,omitempty"`
+	Len      int    `json:"len"`
+	Opts     []byte `json:"opts"`  // raw SYN options (nil = MSS 1460)
+	TSFix    bool   `json:"tsfix"` // on non-SYN segments: carry a timestamp option if the SYN-ACK negotiated it
 }
 
 type Script struct {
@@ -337,26 +337,23 @@ func runPassive(sc Script) *evid.Failure {
 	}
 	// accepted connections
 	accepted := map[uint16]int{}
+	dead := 0
 	for {
 		ep, _, aerr := l.EP.Accept()
 		if aerr != nil {
 			break
 		}
-		ra, _ := ep.GetRemoteAddress()
-		accepted[ra.Port]++
 		defer ep.Close()
+		ra, rerr := ep.GetRemoteAddress()
+		if rerr != nil {
+			// the connection was reset between its handshake and this Accept: the endpoint no longer tells its peer
+			dead++
+			continue
+		}
+		accepted[ra.Port]++
 	}
-	nontrivial := len(needs) > 0
-	for port, n := range accepted {
-		k := int(port-5000) * 2
+	justified := func(k int) (bool, []string) {
 		t := ts[k]
-		if t == nil {
-			return evid.Failf("accept-unknown", "Accept returned a connection from port %d to which no segment was sent", port)
-		}
-		if n > 1 {
-			return evid.Failf("accept-twice", "Accept returned %d connections for one 4-tuple (peer port %d)\n%s", n, port, render(inj, frames))
-		}
-		// justified iff some injected ACK-bearing segment acknowledged s+1 for a SYN-ACK sequence s the stack had sent before
 		ok := false
 		var offs []string
 		for _, r := range inj {
@@ -372,6 +369,44 @@ func runPassive(sc Script) *evid.Failure {
 				}
 			}
 		}
+		return ok, offs
+	}
+	for ; dead > 0; dead-- {
+		// attribute it to a 4-tuple that completed a valid handshake, was sent a reset afterwards and is not accounted for
+		found := false
+		for k, t := range ts {
+			if k%2 == 1 || t == nil || accepted[uint16(5000+k/2)] != 0 {
+				continue
+			}
+			rst := false
+			for _, r := range inj {
+				if r.tuple == k && r.step.Flags&codec.RST != 0 {
+					rst = true
+				}
+			}
+			if ok, _ := justified(k); ok && rst {
+				accepted[uint16(5000+k/2)]++
+				evid.Label("accepted-connection-already-reset")
+				found = true
+				break
+			}
+		}
+		if !found {
+			return evid.Failf("accept-without-valid-ack:dead", "Accept returned a connection that had already been reset, and no 4-tuple with a valid handshake followed by a reset is unaccounted for\n%s", render(inj, frames))
+		}
+	}
+	nontrivial := len(needs) > 0
+	for port, n := range accepted {
+		k := int(port-5000) * 2
+		t := ts[k]
+		if t == nil {
+			return evid.Failf("accept-unknown", "Accept returned a connection from port %d to which no segment was sent", port)
+		}
+		if n > 1 {
+			return evid.Failf("accept-twice", "Accept returned %d connections for one 4-tuple (peer port %d)\n%s", n, port, render(inj, frames))
+		}
+		// justified iff some injected ACK-bearing segment acknowledged s+1 for a SYN-ACK sequence s the stack had sent before
+		ok, offs := justified(k)
 		if !ok {
 			sig := "accept-without-valid-ack"
 			{
